@@ -60,7 +60,7 @@ type C03Case struct {
 }
 
 func genC03(r *Rng) *C03Case {
-	cs := &C03Case{Cfg: EngCfg{Strict: r.Chance(0.1)}}
+	cs := &C03Case{Cfg: genCfg(r, 0.1)}
 	ne := r.Range(2, 5)
 	for i := 0; i < ne; i++ {
 		cs.Envs = append(cs.Envs, GenEnv(r.Fork(uint64(100+i)), 0, 5))
@@ -143,6 +143,7 @@ func (cs *C03Case) buildEnvs() []map[string]any {
 }
 
 func c03Engine(cs *C03Case) (*liquid.Engine, Res) {
+	cs.Cfg.apply()
 	e := NewEngine(cs.Cfg)
 	names := make([]string, 0, len(cs.Inc))
 	for n := range cs.Inc {
